@@ -1,7 +1,15 @@
 import DmrVerif.Driver.Loop
 import DmrVerif.Driver.Ipsc
+import DmrVerif.Driver.TranslIpsc
+import DmrVerif.Driver.TranslBitsBytes
 
 /-! model driver for property C13 (Hytera IPSC frames): the stateless codec operations plus the object
-history (`h.*` operations thread a `Heap` of decoded `HyteraIPSC` objects through the lines of one run) -/
+history (`h.*` operations thread a `Heap` of decoded `HyteraIPSC` objects through the lines of one run); `t.ip.*`, `t.bb.*`: the
+definitions translated from the source (`Gen/TranslIpsc.lean`, `Gen/TranslBitsBytes.lean`), stateless -/
 
-def main : IO Unit := Dmr.Driver.runMainS Dmr.Driver.ipscStep Dmr.Ipsc.Heap.empty
+def step (s : Dmr.Ipsc.Heap) (op : String) (args : List String) : Dmr.Ipsc.Heap × String :=
+  match (Dmr.Driver.translIpscOp op args).orElse (fun _ => Dmr.Driver.translBitsBytesOp op args) with
+  | some out => (s, out)
+  | none => Dmr.Driver.ipscStep s op args
+
+def main : IO Unit := Dmr.Driver.runMainS step Dmr.Ipsc.Heap.empty
